@@ -8,6 +8,7 @@ import numpy.typing
 import numpoly
 
 from ..baseclass import ndpoly, PolyLike
+from ..construct.from_attributes import CFUNCTION_DTYPES
 from ..dispatch import implements
 
 
@@ -96,14 +97,34 @@ def multiply(
     #    if out is None:
     #        out_ = numpoly.clean_attributes(out_)
 
-    numpoly.cmultiply(
-        x1.exponents,
-        x2.exponents,
-        x1.coefficients,
-        x2.coefficients,
-        x1.KEY_OFFSET,
-        out_.values.ravel(),
-    )
+    # The C helper formats keys byte-wise (ASCII only, 256 byte buffer) and
+    # writes raw bytes for a handful of dtypes; use it only where that is safe.
+    max_key = int(numpy.max(exponents, initial=0)) + x1.KEY_OFFSET
+    if (
+        max_key < 128
+        and exponents.shape[1] < 256
+        and numpy.dtype(dtype) in CFUNCTION_DTYPES
+        and out_.dtype == dtype
+    ):
+        numpoly.cmultiply(
+            x1.exponents,
+            x2.exponents,
+            [numpy.asarray(coeff, dtype=dtype) for coeff in x1.coefficients],
+            [numpy.asarray(coeff, dtype=dtype) for coeff in x2.coefficients],
+            x1.KEY_OFFSET,
+            out_.values.ravel(),
+        )
+    else:
+        seen = set()
+        for expon1, coeff1 in zip(x1.exponents, x1.coefficients):
+            for expon2, coeff2 in zip(x2.exponents, x2.coefficients):
+                key = (expon1 + expon2 + x1.KEY_OFFSET).ravel()
+                key = key.view(f"U{len(expon1)}").item()
+                if key in seen:
+                    out_.values[key] += coeff1 * coeff2
+                else:
+                    out_.values[key] = coeff1 * coeff2
+                seen.add(key)
     if out is None:
         out_ = numpoly.clean_attributes(out_)
 
